@@ -1,6 +1,6 @@
 (* Props/C21.v — property C21: the native HTTP client returns the server's stream
    and never replays a cursor.  Statements only; proofs are in Proofs/C21.v.
-   [model i] runs the client state machine of Model/C21.v (openStream, Exchange,
+   [smodel i] runs the client state machine of Model/C21.v (openStream, Exchange,
    Next, Cancel, Close, post, parseMain, parseIPCStream) against the scripted
    stateless server through the fault schedule [i_faults i]; inputs range over
    ALL scripts, ALL client call sequences and ALL fault schedules (no bound). *)
@@ -10,7 +10,7 @@ Import ListNotations.
 (* (1) On an exchange stream no cursor is ever POSTed twice, whatever the calls
    made and whatever faults hit which POSTs (Cancel's POST included). *)
 Theorem cursor_never_replayed : forall i,
-  i_exchange i = true -> NoDup (posted_cursors (model i)).
+  i_exchange i = true -> NoDup (posted_cursors (smodel i)).
 Proof. intros i. exact (cursor_never_replayed_l true i). Qed.
 
 (* (2) After ANY call on an exchange stream that POSTed and failed — transport
@@ -19,7 +19,7 @@ Proof. intros i. exact (cursor_never_replayed_l true i). Qed.
    server exception — every later call leaves the network untouched and yields
    no batch. *)
 Theorem no_post_after_ambiguous : forall i r0 pre r post,
-  i_exchange i = true -> model i = r0 :: pre ++ r :: post ->
+  i_exchange i = true -> smodel i = r0 :: pre ++ r :: post ->
   o_posts r <> [] -> is_err (o_res r) = true ->
   Forall (fun r' => o_posts r' = [] /\ is_ok (o_res r') = false) post.
 Proof. intros i. exact (no_post_after_ambiguous_rel true i). Qed.
@@ -30,7 +30,7 @@ Proof. intros i. exact (no_post_after_ambiguous_rel true i). Qed.
    batch (rows, values, user metadata: the token keys are not part of [item]),
    delivered exactly the server's logs, and had sent x uncancelled. *)
 Theorem exchange_returns_server_batch_stripped : forall i k x bad r p it,
-  nth_error (i_ops i) k = Some (OpExchange x bad) -> nth_error (tl (model i)) k = Some r ->
+  nth_error (i_ops i) k = Some (OpExchange x bad) -> nth_error (tl (smodel i)) k = Some r ->
   o_posts r = [p] -> good p = true -> items_of true (p_frames p) = [it] -> has_token (p_frames p) = true ->
   o_res r = ROk it /\ o_logs r = logs_in (p_frames p) /\ p_x p = x /\ p_cancel p = false.
 Proof. exact exchange_returns_rel. Qed.
@@ -39,17 +39,17 @@ Proof. exact exchange_returns_rel. Qed.
    handed out by Next are, in order, a prefix of the data items of the responses
    that reached the client intact.  (That end-of-stream is reported only when
    nothing delivered is left unreturned is the REnd clause of [prod_ok], part of
-   [spec_ok] below.) *)
+   [sspec_ok] below.) *)
 Theorem producer_returns_delivered_in_order : forall i,
-  i_exchange i = false -> no_lossy (model i) = true ->
-  exists rest, all_delivered (model i) = returned (model i) ++ rest.
+  i_exchange i = false -> no_lossy (smodel i) = true ->
+  exists rest, all_delivered (smodel i) = returned (smodel i) ++ rest.
 Proof. exact producer_prefix_rel. Qed.
 
 (* (5) A server exception that reached the client intact surfaces from that very
    call as an RpcError carrying the server's exception type — at init, on any
    exchange / producer / cancel turn, with or without a matching schema. *)
 Theorem exception_is_typed : forall i r p ty,
-  In r (model i) -> In p (o_posts r) -> seen p = true -> first_exc (p_frames p) = Some ty ->
+  In r (smodel i) -> In p (o_posts r) -> seen p = true -> first_exc (p_frames p) = Some ty ->
   o_res r = RErr (ERpc ty).
 Proof. exact exception_typed_rel. Qed.
 
@@ -59,7 +59,7 @@ Proof. exact exception_typed_rel. Qed.
    bytes, schema drift, spurious error header) the call fails; on an exchange
    stream so does a response that lost its cursor. *)
 Theorem mismatching_responses_rejected : forall i r p,
-  In r (model i) -> In p (o_posts r) -> transparent (p_fault p) = false ->
+  In r (smodel i) -> In p (o_posts r) -> transparent (p_fault p) = false ->
   (lossy (p_fault p) = false \/ (i_exchange i = true /\ p_cancel p = false)) ->
   is_err (o_res r) = true.
 Proof. exact reject_rel. Qed.
@@ -67,44 +67,65 @@ Proof. exact reject_rel. Qed.
 (* (6) The whole property in the decidable form evaluated on the implementation's
    observables: well-formed POSTs, typed exceptions, rejection, open contract, no cursor
    replay, poisoning, exchange returns, producer returns. *)
-Theorem spec_holds_on_model : forall i, spec_ok i (model i) = true.
+Theorem spec_holds_on_model : forall i, sspec_ok i (smodel i) = true.
 Proof. exact model_meets_spec. Qed.
+
+(* (7) Client histories.  [model] of a whole case = (earlier calls made on the same
+   HttpClient, each of which made it accept some schema under some other
+   declaration; then the stream).  What the stream observes does not depend on
+   those earlier calls at all: the verdict on a response is a function of the
+   declared schema, the wire schema and the body only. *)
+Theorem verdict_independent_of_history : forall h1 h2 s,
+  snd (model {| i_hist := h1; i_in := s |}) = snd (model {| i_hist := h2; i_in := s |}).
+Proof. exact hist_independent. Qed.
+
+(* (7b) In particular a response whose schema was rewritten (to ANY other schema,
+   whether or not this client accepted that schema earlier for another declaration)
+   is refused, whatever calls came before. *)
+Theorem drifted_schema_rejected_whatever_the_history : forall h s r p,
+  In r (snd (model {| i_hist := h; i_in := s |})) -> In p (o_posts r) ->
+  f_body (p_fault p) = BDrift -> f_net (p_fault p) = NetOk -> is_err (o_res r) = true.
+Proof. exact hist_drift_rejected. Qed.
+
+(* (8) The whole property with histories, in the form evaluated on the implementation. *)
+Theorem spec_holds_on_model_with_history : forall i, spec_ok i (model i) = true.
+Proof. exact hist_model_meets_spec. Qed.
 
 (* The client before commit ab71de6 (schema compared before any batch is read)
    violated (5): an init handler error, framed by the server with the empty
    schema, came back as TypeError instead of the server's ValueError. *)
 Theorem typed_exception_legacy_refuted :
-  exists i, spec_ok i (model_legacy i) = false /\
-            map o_res (model_legacy i) = [RErr (ERpc type_error)] /\
-            map o_res (model i) = [RErr (ERpc (str "ValueError"))].
+  exists i, sspec_ok i (smodel_legacy i) = false /\
+            map o_res (smodel_legacy i) = [RErr (ERpc type_error)] /\
+            map o_res (smodel i) = [RErr (ERpc (str "ValueError"))].
 Proof. exists w_init_raise. exact legacy_refuted_l. Qed.
 
 (* Scope of (1): it is a statement about exchange streams.  A producer stream
    re-POSTs the same cursor when Next is called again after a failed turn. *)
 Theorem producer_cursor_retried :
-  exists i, i_exchange i = false /\ ~ NoDup (posted_cursors (model i)).
+  exists i, i_exchange i = false /\ ~ NoDup (posted_cursors (smodel i)).
 Proof. exists w_prod_retry. split; [reflexivity|exact producer_retries_l]. Qed.
 
 (* non-vacuity: a 3-turn exchange stream whose 2nd turn is cut inside the last
    message meets the premises of (2), (3) and (5)-free (1) *)
 Example premises_poison_satisfiable :
   i_exchange w_exch_fault = true /\
-  exists r0 r1 r r3 r4, model w_exch_fault = r0 :: [r1] ++ r :: [r3; r4] /\
+  exists r0 r1 r r3 r4, smodel w_exch_fault = r0 :: [r1] ++ r :: [r3; r4] /\
                         o_posts r <> [] /\ is_err (o_res r) = true.
 Proof. split; [reflexivity|]. vm_compute. do 5 eexists. split; [reflexivity|]. split; [discriminate|reflexivity]. Qed.
 
 Example premises_exchange_returns_satisfiable :
   exists r p it, nth_error (i_ops w_exch_fault) 0 = Some (OpExchange 1%Z false) /\
-    nth_error (tl (model w_exch_fault)) 0 = Some r /\ o_posts r = [p] /\ good p = true /\
+    nth_error (tl (smodel w_exch_fault)) 0 = Some r /\ o_posts r = [p] /\ good p = true /\
     items_of true (p_frames p) = [it] /\ has_token (p_frames p) = true /\ it = (1%N, 11%Z, [(str "k", str "v")]).
 Proof. vm_compute. do 3 eexists. repeat (split; [reflexivity|]). reflexivity. Qed.
 
 Example premises_exception_satisfiable :
-  exists r p, In r (model w_init_raise) /\ In p (o_posts r) /\ seen p = true /\
+  exists r p, In r (smodel w_init_raise) /\ In p (o_posts r) /\ seen p = true /\
               first_exc (p_frames p) = Some (str "ValueError").
 Proof. vm_compute. do 2 eexists. split; [left; reflexivity|]. split; [left; reflexivity|]. split; reflexivity. Qed.
 
 Example premises_producer_satisfiable :
-  i_exchange w_prod_retry = false /\ no_lossy (model w_prod_retry) = true /\
-  returned (model w_prod_retry) = [(1%N, 1%Z, []); (1%N, 2%Z, [])].
+  i_exchange w_prod_retry = false /\ no_lossy (smodel w_prod_retry) = true /\
+  returned (smodel w_prod_retry) = [(1%N, 1%Z, []); (1%N, 2%Z, [])].
 Proof. vm_compute. auto. Qed.
